@@ -42,10 +42,15 @@ Definition obs_eqb (a b : obs) : bool :=
   | _, _ => false
   end.
 
-Record c12_case := mkCase { k_env : env; k_ops : list op; k_obs : list obs }.
+(* k_env: the origin under its first authority (localhost:p); k_host2: its second name (127.0.0.1); every
+   operation is tagged with the authority it is directed at (false = first; ignored for operations that are not
+   directed at an authority) *)
+Record c12_case := mkCase { k_env : env; k_host2 : bytes; k_ops : list (bool * op); k_obs : list obs }.
+
+Definition env2 (k : c12_case) : env := mkEnv (e_https (k_env k)) (k_host2 k) (e_srv (k_env k)).
 
 Definition c12_check (k : c12_case) : bool :=
-  list_eqb obs_eqb (fst (run (k_env k) new_client (k_ops k))) (k_obs k).
+  list_eqb obs_eqb (fst (run2 (k_env k) (env2 k) (new_client, new_client) (k_ops k))) (k_obs k).
 
 (* shorthand for the emitter: a hello seen by a listener *)
 Definition hello (q : bool) (sni : bytes) (alpn : list bytes) : dial :=
